@@ -31,6 +31,9 @@ ops (one line, words separated by blanks; bytes as hex, "-" = empty):
   PAYLOAD := <n> (<key> OPTB)*             in the iteration order of the Go map
   OPTB    := n | v<hex>
 
+  encz HDR REQ                                → the same built with the toy compressor configured (FrameWrite.encodeReqC (some toyEnc))
+  decz <framehex> HDR REQ                     → spec-backed: the compression-aware specification decoder (FrameSpec.decodeReqC toyDec)
+                                                 on the real bytes against what was asked for, answers as for `dec`
   hs CFG AUTH PLAN ANSWERS FRAMES             → handshake tier, SPECIFICATION: the requests due for (CFG, AUTH, PLAN) when the
                                                  peer answers ANSWERS (Handshake.specReqs) are compared, one by one, with what
                                                  the spec decoder reads out of FRAMES (the frames the peer received from the real
@@ -422,6 +425,28 @@ def step (_ : Unit) (ws : List String) : Unit × String :=
       let want := ask now0 g
       if !Expressible h.v want then "inexpressible" else
       match decodeReq bs with
+      | none => "mismatch:undecodable"
+      | some d =>
+        if d.version ≠ h.v then "mismatch:version"
+        else if d.tracing ≠ h.tracing then "mismatch:tracing"
+        else if d.stream ≠ h.stream then "mismatch:stream"
+        else if d.rest ≠ [] then "mismatch:rest"
+        else if canonReq d.req ≠ canonReq want then "mismatch:request"
+        else "ok"
+    | _, _ => "bad-op"
+  | "encz" :: r =>
+    match pHdrReq r with
+    | some ((h, g), []) =>
+      match encodeReqC (some toyEnc) h.v h.tracing h.stream now0 g with
+      | .ok bs => toHex bs
+      | .error e => "rejected:" ++ errName e
+    | _ => "bad-op"
+  | "decz" :: fh :: r =>
+    match parseHex fh, pHdrReq r with
+    | some bs, some ((h, g), []) =>
+      let want := ask now0 g
+      if !Expressible h.v want then "inexpressible" else
+      match decodeReqC toyDec bs with
       | none => "mismatch:undecodable"
       | some d =>
         if d.version ≠ h.v then "mismatch:version"
